@@ -1,4 +1,4 @@
-import PoxModel.Proofs.Handoff
+import PoxModel.Proofs.HandoffWake
 import PoxModel.Proofs.CoopLock
 import PoxModel.Model.HandoffSites
 import PoxModel.Generated.Sites
@@ -81,6 +81,48 @@ theorem sync_mutual {threaded users progs} {s : State} (hr : Reachable threaded 
   have h1 : j + 2 = i + 2 := (Prod.mk.inj (Option.some.inj hv)).1
   omega
 
+/-! ## schedule() from foreign threads -/
+
+/-- **schedule_atmost1.**  A task that is woken through `Scheduler.schedule()` — by any number of foreign threads, at
+any moments — never occurs twice in the ready queue; and while the scheduler thread is executing it, or is about to put
+it (back) into the queue, it is not in the queue at all.  (`u < users.length`: the tasks that exist before the run and
+are only ever woken through `schedule()`; tasks parked in the select hub are outside this statement, see the limits.) -/
+theorem schedule_atmost1 {threaded users progs} {s : State} (hr : Reachable threaded users progs s) (u : TaskId)
+    (hu : u < users.length) : s.ready.count u ≤ 1 ∧ (holds s.s s.tasks u → u ∉ s.ready) := by
+  have hn := reach_nUsers hr
+  exact ⟨(reach_U hr).cnt u (by omega), (reach_U hr).hold u (by omega)⟩
+
+/-- **no wake is lost.**  Whenever a ScheduleTask's slice ends (the scheduler thread returns to its loop from
+`ScheduleTask.run`), the task it was created for is in the ready queue — either it was there already, or it has just
+been put at the head.  (The ScheduleTask itself cannot be lost: the foreign thread's `schedule()` returns only after
+the `_ready.append(st)`, and only the scheduler thread ever removes from `_ready`.) -/
+theorem schedule_wake_kept {threaded users progs} {s s' : State} (hr : Reachable threaded users progs s)
+    (hs : step s 0 = some s') (st tg : TaskId) (r : Bool)
+    (hpc : s.s = .stContains st ∨ ∃ p, s.s = .stFs st p) (hdone : s'.s = .runLen)
+    (hl : s.tasks[st]? = some (.st tg r)) : tg ∈ s'.ready :=
+  st_done_in_ready (reach_U hr) hs st tg r hpc hdone hl
+
+/-! ## wake-ups do not depend on the polling time-out -/
+
+/-- **wake_noticed.**  (threaded hub) if the scheduler thread is parked in `Event.wait` while the ready queue is not
+empty, the event is set or some thread's very next action is the `Event.set()` of `break_idle`; (inline hub) if it is
+parked in `select` while the ready queue is not empty, the hub's pinger pipe is not empty or some thread's next action
+is the ping; (call-later) if the deque of calls is not empty, the CallLaterTask's pipe is not empty, or some thread's
+next action is `self._pinger.ping()`, or the CallLaterTask is inside its drain loop (it pops again before it waits).
+So the `CYCLE_MAXIMUM` polling time-out is never what makes pending work noticed. -/
+theorem wake_noticed {threaded users progs} {s : State} (hr : Reachable threaded users progs s) :
+    (s.s = .idleWait → s.ready ≠ [] → s.event = true ∨ sigP s.h s.fs) ∧
+    (s.s = .hub .select → s.ready ≠ [] → s.hubPipe > 0 ∨ sigP s.h s.fs) ∧
+    (s.calls ≠ [] → s.cltPipe > 0 ∨ pingP s.fs ∨ draining s.s = true) :=
+  let h := reach_N hr
+  ⟨h.evt, h.pip, h.cal⟩
+
+/-- the hub mode is respected: with a threaded hub the scheduler thread never runs `_select`; with an inline hub
+there is no hub thread and the scheduler thread never waits on the event -/
+theorem hub_mode {threaded users progs} {s : State} (hr : Reachable threaded users progs s) :
+    (s.threaded = true → ∀ p, s.s ≠ .hub p) ∧ (s.threaded = false → s.h = .off ∧ s.s ≠ .idleWait ∧ s.s ≠ .idleClear) :=
+  ⟨(reach_W hr).thr, (reach_W hr).inl⟩
+
 /-! ## the cooperative Lock -/
 
 open Pox.CoopLock in
@@ -161,5 +203,18 @@ def witnessCalls : List Tid :=
 example : (runStrict (Handoff.init true [] [[.callLater], [.callLater]]) witnessCalls).map
     (fun s => (s.executed, s.submitted, s.calls)) = some ([(⟨2, 0⟩, 0), (⟨3, 0⟩, 0)], [⟨2, 0⟩, ⟨3, 0⟩], []) := by
   decide
+
+/-- inline hub, two foreign threads waking the same user task: a reachable state with the scheduler parked in
+`select`, the ready queue non-empty (the first ScheduleTask), and the wake-up signal still pending -/
+def witnessWake : List Tid := [0, 2, 2, 2, 2]      -- run_len (idle), begin, sch_spawn, fs_assert, fs_append
+example : (runStrict (Handoff.init false [[]] [[.schedule 0], [.schedule 0]]) witnessWake).map
+    (fun s => (s.s, s.ready, s.hubPipe, (s.fs.map fun f => isSigB f.pc))) =
+    some (.hub .select, [1], 0, [true, false]) := by decide
+
+/-- …and both wake-ups end with the task queued exactly once -/
+def witnessTwice : List Tid :=
+  [2, 2, 2, 2, 2, 3, 3, 3, 3, 3, 0, 0, 0, 0, 0, 0, 0, 0, 0, 0, 0, 0]
+example : (runStrict (Handoff.init false [[]] [[.schedule 0], [.schedule 0]]) witnessTwice).map
+    (fun s => (s.ready, s.s)) = some ([0], .runLen) := by decide
 
 end Pox.C07
